@@ -37,7 +37,11 @@ type step struct {
 	// what the listener hears must not influence any later request
 	Event []byte   `json:"event,omitempty"`
 	Case  api.Case `json:"case"`
-	Reply int      `json:"reply"` // 0 valid all-zero reply, 1 no reply (timeout), 2 valid reply with 0xff noise payload, 3 mirror (below)
+	Reply int      `json:"reply"` // 0 valid all-zero reply, 1 no reply (timeout), 2 valid reply with 0xff noise payload, 3 mirror (below), 4 Raw
+	// Raw (Reply == 4): the reply is drawn from every class the protocol knows for this operation - in-domain values, the
+	// sentinels ('no such card', 'event overwritten' 0xff, 'no event', failure status) and out-of-domain fields. Whatever the
+	// controller says, the call has put exactly its own request on the wire, once; whether it succeeds is C02's subject.
+	Raw []byte `json:"raw_reply,omitempty"`
 }
 
 // read-modify-write: the application reads a record and writes the same record back. Reply kind 3 makes the reply to a 'get'
@@ -131,7 +135,11 @@ func genHistory(t *rapid.T) history {
 				h.Steps = append(h.Steps, step{Client: client, Case: get, Reply: 3})
 			}
 		}
-		h.Steps = append(h.Steps, step{Client: client, Case: cs, Reply: rapid.IntRange(0, 2).Draw(t, "reply")})
+		st := step{Client: client, Case: cs, Reply: rapid.IntRange(0, 2).Draw(t, "reply")}
+		if _, has := spec.Responses[op]; has && op != "GetDevices" && rapid.IntRange(0, 2).Draw(t, "reply.any") == 0 {
+			st.Reply, st.Raw = 4, gen.Reply(t, cs.Call)
+		}
+		h.Steps = append(h.Steps, st)
 	}
 	uniq := map[uint32]bool{}
 	var us []uint32
@@ -325,6 +333,8 @@ func checkHistoryZ(h history) *rp.Fail {
 				}
 			}
 			d.Reset(r...)
+		} else if s.Reply == 4 && len(s.Raw) > 0 {
+			d.Reset(s.Raw)
 		} else {
 			d.Reset(reply(s.Case, s.Reply)...)
 		}
@@ -363,7 +373,7 @@ func checkHistoryZ(h history) *rp.Fail {
 		if !bytes.Equal(got, want) {
 			return rp.Failf(site+"/request-bytes", "step %d: %s sent\n  %x\nprotocol encoding of this call is\n  %x\n  (first difference at offset %d)", i, s.Case.Call.Op, got, want, firstDiff(got, want))
 		}
-		if s.Reply != 1 && s.Reply != 3 && res.Err != nil {
+		if s.Reply != 1 && s.Reply != 3 && s.Reply != 4 && res.Err != nil {
 			return rp.Failf(site+"/accepted-call-failed", "step %d: %s failed although the controller answered with a well-formed reply: %v", i, s.Case.Call.Op, res.Err)
 		}
 	}
